@@ -15,6 +15,7 @@ import MitmVerif.Model.C50_Codecs
 import MitmVerif.Lemmas.C35Str
 import MitmVerif.Lemmas.C25
 import MitmVerif.Lemmas.C22Render
+import MitmVerif.Lemmas.C50V6
 import MitmVerif.Props.C49
 import Std.Data.String.ToNat
 namespace MitmVerif.Props.C50
@@ -864,5 +865,175 @@ theorem rcode_text_clean (n : Nat) : Clean ((toStr rcodeNames "RCODE" n).map Cha
   toStr_clean _ _ (by decide +kernel) (by decide +kernel) n
 theorem class_text_clean (n : Nat) : Clean ((toStr classNames "CLASS" n).map Char.toNat) :=
   toStr_clean _ _ (by decide +kernel) (by decide +kernel) n
+
+end MitmVerif.Props.C50
+
+/-! ### AAAA records transcribed (Model/C50_V6.lean, read-back proved in Lemmas/C50V6.lean over C21's and C22's lemmas) -/
+namespace MitmVerif.Props.C50
+open MitmVerif MitmVerif.C49 MitmVerif.C50 MitmVerif.C50.Codecs MitmVerif.Gen.C50
+
+/-- **AAAA.** `IPv6Address(str(IPv6Address(data))).packed = data` for every 16-byte rdata: the writer
+    (`_compress_hextets`, leftmost longest zero run) against C22's transcription of the reader, no hypothesis -/
+theorem ip6_dec_enc (data : Bytes) (s : List Nat) (h : ip6Dec data = some s) : ip6Enc s = some data :=
+  MitmVerif.C50.V6.ip6_dec_enc data s h
+
+/-- the codec laws exactly as `ResourceRecord.from_json` needs them: the marker is only ever built with the record
+    type's own name (`CodecLaws.strict_rejects` asks it for every name text) -/
+structure CodecLawsT (C : Codec) : Prop where
+  dec_enc : ∀ t b j, C.dec t b = some j → C.enc t j = some b
+  strict_rejects : ∀ t b, isStrict t = true → C.enc t (.str (invalidStr (tyNameCps t) b)) = none
+
+theorem CodecLaws.toT {C : Codec} (L : CodecLaws C) : CodecLawsT C :=
+  ⟨L.dec_enc, fun t b h => L.strict_rejects t (tyNameCps t) b h⟩
+
+theorem record_data_roundtrip_partial_T (C : Codec) (L : CodecLawsT C) (t : Nat) (data : Bytes)
+    (h : isDecoded t = true → ((C.dec t data).isSome = true ∨ isStrict t = true)) :
+    let j := dataJson (isDecoded t) (tyNameCps t) data (C.dec t data)
+    dataFromJson (isDecoded t) (C.enc t j) j = some data := by
+  intro j
+  cases hd : isDecoded t with
+  | false => simp [j, dataJson, dataFromJson, hd, hexFallback_hexStr]
+  | true =>
+    cases hdec : C.dec t data with
+    | some v =>
+      have := L.dec_enc t data v hdec
+      simp [j, dataJson, dataFromJson, hd, hdec, this]
+    | none =>
+      have hs : isStrict t = true := by
+        rcases h hd with h1 | h1
+        · simp [hdec] at h1
+        · exact h1
+      have := L.strict_rejects t data hs
+      simp [j, dataJson, dataFromJson, hd, hdec, this, hexFallback_invalidStr]
+
+private theorem rr_roundtrip_T (C : Codec) (L : CodecLawsT C) (r : RR) (h : Representable C r) :
+    rrFromJson C (rrToJson C r) = some r := by
+  have hd := record_data_roundtrip_partial_T C L r.type r.data h
+  simp only at hd
+  simp [rrFromJson, rrToJson, sym_roundtrip_types, sym_roundtrip_classes, hd]
+
+theorem dns_json_roundtrip_partial_T (C : Codec) (L : CodecLawsT C) (m : Msg)
+    (hrep : ∀ r, (r ∈ m.an ∨ r ∈ m.ns ∨ r ∈ m.ar) → Representable C r) :
+    fromJson C (toJson C m) = some { m with z := 0 } := by
+  have hq := mapOpt_map qToJson qFromJson m.qs (fun q _ => q_roundtrip q)
+  have han := mapOpt_map (rrToJson C) (rrFromJson C) m.an (fun r hr => rr_roundtrip_T C L r (hrep r (Or.inl hr)))
+  have hns := mapOpt_map (rrToJson C) (rrFromJson C) m.ns (fun r hr => rr_roundtrip_T C L r (hrep r (Or.inr (Or.inl hr))))
+  have har := mapOpt_map (rrToJson C) (rrFromJson C) m.ar (fun r hr => rr_roundtrip_T C L r (hrep r (Or.inr (Or.inr hr))))
+  simp [fromJson, toJson, sym_roundtrip_opcodes, sym_roundtrip_rcodes, hq, han, hns, har]
+
+private theorem hexDigit_not_sep : ∀ n : Fin 16,
+    UInt8.ofNat (hexDigitN n.val) ≠ 0x3a ∧ UInt8.ofNat (hexDigitN n.val) ≠ 0x25 ∧ UInt8.ofNat (hexDigitN n.val) ≠ 0x2f := by
+  decide
+
+private theorem hexChars_no_sep (b : Bytes) (sep : UInt8) (hs : sep = 0x3a ∨ sep = 0x25 ∨ sep = 0x2f) :
+    sep ∉ bytesOf (hexChars b) := by
+  intro hmem
+  simp only [bytesOf, hexChars, List.mem_map, List.mem_flatMap] at hmem
+  obtain ⟨n, ⟨x, _, hn⟩, rfl⟩ := hmem
+  have hx := UInt8.toNat_lt x
+  have h1 := hexDigit_not_sep ⟨x.toNat / 16, by omega⟩
+  have h2 := hexDigit_not_sep ⟨x.toNat % 16, by omega⟩
+  simp only [List.mem_cons, List.not_mem_nil, or_false] at hn
+  rcases hn with rfl | rfl
+  · rcases hs with h | h | h <;> simp_all
+  · rcases hs with h | h | h <;> simp_all
+
+private theorem tyName28 : tyNameCps 28 = [65, 65, 65, 65] := by decide +kernel
+
+/-- the marker "0x… (invalid AAAA data)" is not an IPv6 literal: `IPv6Address(marker)` raises, so an AAAA record with a
+    wrong data length takes the hex fallback -/
+theorem ip6_rejects_marker (b : Bytes) : ip6Enc (invalidStr (tyNameCps 28) b) = none := by
+  have hshape : bytesOf (invalidStr (tyNameCps 28) b) =
+      0x30 :: 0x78 :: (bytesOf (hexChars b) ++ bytesOf (invalidTail [65, 65, 65, 65])) := by
+    simp [invalidStr, hexStr, bytesOf, tyName28]
+  have htail : ∀ sep : UInt8, (sep = 0x3a ∨ sep = 0x25 ∨ sep = 0x2f) → sep ∉ bytesOf (invalidTail [65, 65, 65, 65]) := by
+    intro sep hs; rcases hs with rfl | rfl | rfl <;> decide
+  have hno : ∀ sep : UInt8, (sep = 0x3a ∨ sep = 0x25 ∨ sep = 0x2f) → sep ∉ bytesOf (invalidStr (tyNameCps 28) b) := by
+    intro sep hs
+    rw [hshape]
+    simp only [List.mem_cons, List.mem_append, not_or]
+    refine ⟨?_, ?_, hexChars_no_sep b sep hs, htail sep hs⟩
+    · rcases hs with rfl | rfl | rfl <;> decide
+    · rcases hs with rfl | rfl | rfl <;> decide
+  have hpv : C22.parseV6 (bytesOf (invalidStr (tyNameCps 28) b)) = none := by
+    have hsl : (bytesOf (invalidStr (tyNameCps 28) b)).contains 0x2f = false := by
+      simpa using hno 0x2f (Or.inr (Or.inr rfl))
+    have hpct := MitmVerif.C21.partitionPct_none _ (hno 0x25 (Or.inr (Or.inl rfl)))
+    have hsplit := MitmVerif.C21.splitOn_no_sep 0x3a _ (hno 0x3a (Or.inl rfl))
+    have hne : (bytesOf (invalidStr (tyNameCps 28) b)).isEmpty = false := by rw [hshape]; rfl
+    simp [C22.parseV6, hsl, hpct, C22.parseV6Int, C22.v6Parts, hne, hsplit]
+  unfold ip6Enc
+  split
+  · rw [hpv]
+  · rfl
+
+/-- all five text codecs of `ResourceRecord` transcribed (TXT, NS/CNAME/PTR, A, AAAA): the laws hold as soon as the HTTPS
+    part `O` satisfies them (`https_reencode_exact` proves the HTTPS law in its own types) -/
+theorem transcribed_codec_laws_6 (I : C25.Idna) (O : Codec) (LO : CodecLaws O) : CodecLawsT (realCodec6 I O) where
+  dec_enc := by
+    intro t b j h
+    simp only [realCodec6] at h ⊢
+    by_cases h28 : t = 28
+    · simp only [h28, if_true] at h ⊢
+      cases hd : ip6Dec b with
+      | none => simp [hd] at h
+      | some s => simp only [hd, Option.map_some, Option.some.injEq] at h; subst h; exact ip6_dec_enc b s hd
+    · simp only [h28, if_false] at h ⊢
+      exact (transcribed_codec_laws_A I O LO).dec_enc t b j h
+  strict_rejects := by
+    intro t b hs
+    simp only [realCodec6]
+    by_cases h28 : t = 28
+    · subst h28; simp only [if_true]; exact ip6_rejects_marker b
+    · simp only [h28, if_false]; exact (transcribed_codec_laws_A I O LO).strict_rejects t _ b hs
+
+/-- **C50 (DNS view round trip, every text codec transcribed).** For the codec whose A, AAAA, NS, CNAME, PTR and TXT parts are
+    the transcriptions of mitmproxy's / CPython's code: re-encoding the unedited DNS-view rendering of `m` gives `m` with the
+    reserved bits cleared, under the guards (clean YAML text, YAML load∘dump, representable records).  Parameters left: the YAML
+    library, Python's idna codec for ACE labels (no law needed), and the HTTPS part `O` (law proved in `https_reencode_exact`). -/
+theorem dns_view_roundtrip_transcribed_6 (Y : Yaml) (I : C25.Idna) (O : Codec) (LO : CodecLaws O) (m : Msg)
+    (hclean : Clean (Y.dump (toJson (realCodec6 I O) m)))
+    (hload : (Y.load (Y.dump (toJson (realCodec6 I O) m))).bind (fromJson (realCodec6 I O)) =
+      fromJson (realCodec6 I O) (toJson (realCodec6 I O) m))
+    (hrep : ∀ r, (r ∈ m.an ∨ r ∈ m.ns ∨ r ∈ m.ar) → Representable (realCodec6 I O) r) :
+    reencodeDns Y (realCodec6 I O) (prettifyDns Y (realCodec6 I O) m) = some { m with z := 0 } := by
+  unfold reencodeDns prettifyDns prettifyText
+  simp only [Bool.false_eq_true, if_false]
+  rw [escape_identity_on_clean _ hclean, hload]
+  exact dns_json_roundtrip_partial_T _ (transcribed_codec_laws_6 I O LO) m hrep
+
+example : ip6Dec [0x20, 1, 0xd, 0xb8, 0, 0, 0, 0, 0, 1, 0, 0, 0, 0, 0, 1] = some (cpsOf "2001:db8::1:0:0:1") := by decide +kernel
+example : ip6Dec [0, 0, 0, 0, 0, 0, 0, 0, 0, 0, 0xff, 0xff, 1, 2, 3, 4] = some (cpsOf "::ffff:102:304") := by decide +kernel
+example : ip6Dec [1, 2, 3] = none := by decide +kernel
+
+end MitmVerif.Props.C50
+
+/-! ### C49's Dumper theorem with the symbol texts discharged -/
+namespace MitmVerif.Props.C50
+open MitmVerif MitmVerif.C49 MitmVerif.C50 MitmVerif.Gen.C50
+
+def symOrigins : List String :=
+  ["dns.op_codes.to_str(f.request.op_code)", "dns.types.to_str(f.request.questions[0].type)",
+   "response_codes.to_str(f.response.response_code)"]
+
+/-- **C49 `dumper_output_clean` with fewer hypotheses.** The three `internal` pieces that are symbol names
+    (`dns.op_codes.to_str`, `dns.types.to_str`, `response_codes.to_str` of whatever number the wire carries) need no
+    cleanliness assumption: they are the transcribed `to_str`, proved clean for every number.  Only the remaining internal
+    texts (sizes, ints, enum names) are still assumed clean. -/
+theorem dumper_output_clean_sym (env : Env) (sentinel : Nat) (hs : isCc sentinel = false) (nOp nTy nRc : Nat)
+    (hop : env.internal "dns.op_codes.to_str(f.request.op_code)" = (toStr opNames "OPCODE" nOp).map Char.toNat)
+    (hty : env.internal "dns.types.to_str(f.request.questions[0].type)" = (toStr typeNames "TYPE" nTy).map Char.toNat)
+    (hrc : env.internal "response_codes.to_str(f.response.response_code)" = (toStr rcodeNames "RCODE" nRc).map Char.toNat)
+    (hint : ∀ o, o ∉ symOrigins → Clean (env.internal o)) :
+    ∀ l ∈ MitmVerif.Gen.C49.echoLines, ∀ out, MayEcho env sentinel l.2 out → Clean out := by
+  apply MitmVerif.Props.C49.dumper_output_clean env sentinel hs
+  intro o
+  by_cases h : o ∈ symOrigins
+  · simp only [symOrigins, List.mem_cons, List.not_mem_nil, or_false] at h
+    rcases h with rfl | rfl | rfl
+    · rw [hop]; exact opcode_text_clean nOp
+    · rw [hty]; exact type_text_clean nTy
+    · rw [hrc]; exact rcode_text_clean nRc
+  · exact hint o h
 
 end MitmVerif.Props.C50
